@@ -104,6 +104,48 @@ def on_await_factory(c, IO):
     return on_await
 
 
+@unit("C04", "limit-configuration", [(M, "HTTP1ConnectionParameters.__init__"), (M, "HTTP1Connection.__init__"), (M, "HTTP1Connection.set_max_body_size")])
+def u_config(c):
+    """where the limit the reading units take as `_max_body_size` comes from: exactly the configured max_body_size - any natural number, 0 included - and the
+    stream's buffer size only when none was configured; set_max_body_size replaces it with exactly its argument"""
+    import tornado.http1connection as H1
+    configured = c.choose("max_body_size", ["not-configured", "a-number"])
+    mx = None if configured == "not-configured" else c.nat("configured_max_body_size")
+    buf = c.nat("stream_max_buffer_size")
+    if not c.symbolic and c.model is None:
+        mx = None if mx is None else c.rng.choice([0, 0, 1, 16, 10 ** 9])
+        buf = c.rng.choice([0, 1, 104857600])
+        c.values.update({"configured_max_body_size": mx, "stream_max_buffer_size": buf})
+    out_p = c.call(c.fn(M, "HTTP1ConnectionParameters.__init__"), H1.HTTP1ConnectionParameters.__new__(H1.HTTP1ConnectionParameters), max_body_size=mx)
+    c.only_raises(out_p, ())
+    params = H1.HTTP1ConnectionParameters.__new__(H1.HTTP1ConnectionParameters)
+    c.fn(M, "HTTP1ConnectionParameters.__init__")(params, max_body_size=mx)
+    c.oblige("params/max_body_size-kept-as-given", (params.max_body_size is None) if mx is None else And(params.max_body_size is not None, params.max_body_size == mx))
+
+    class Stream:
+        max_buffer_size = buf
+
+        def set_close_callback(self, cb):
+            pass
+
+        def closed(self):
+            return False
+    conn = H1.HTTP1Connection.__new__(H1.HTTP1Connection)
+    with c.patched((H1, "Future", H.new_future if c.symbolic else (lambda: H.heap(c).new()))):
+        out = c.call(c.fn(M, "HTTP1Connection.__init__"), conn, Stream(), c.choose("is_client", [False, True]), params)
+    c.only_raises(out, ())
+    if not out.returned:
+        return
+    c.cover("configured")
+    c.oblige("init/limit-is-the-configured-value-else-the-stream-buffer-size", conn._max_body_size == (buf if mx is None else mx))
+    n = c.nat("override")
+    if not c.symbolic and c.model is None:
+        n = c.rng.choice([0, 1, 16])
+    out2 = c.call(c.fn(M, "HTTP1Connection.set_max_body_size"), conn, n)
+    c.only_raises(out2, ())
+    c.oblige("override/limit-is-exactly-the-argument", conn._max_body_size == n)
+
+
 @unit("C04", "HTTP1Connection._read_chunked_body", [(M, "HTTP1Connection._read_chunked_body"), (M, "parse_hex_int")])
 def u_chunked(c):
     import tornado.http1connection as H1
